@@ -332,6 +332,9 @@ func (g *Gen) Next() Step {
 			}
 			subs := []string{"get", "set", "insert", "remove"}
 			st := Step{Op: op, C: c.CID, Sub: subs[r.Intn(4)], OOB: uint64(r.Pick([]int{6, 2, 1, 1})) * uint64(1+r.Intn(3))}
+			if r.Chance(0.25) {
+				st.End = []uint64{1 << 31, 1 << 32, 1<<63 - 1, 1 << 63, 1<<63 + 5, ^uint64(0) - 1, ^uint64(0)}[r.Intn(7)]
+			}
 			if (st.Sub == "set" || st.Sub == "insert") && r.Chance(0.6) {
 				limit := g.slotLimit(c)
 				v := VSpec{S: &[2]int{g.sid(), r.Range(limit+1, limit*2)}} // too large to inline
@@ -372,6 +375,23 @@ func (g *Gen) Next() Step {
 				st.Keep = r.Chance(p.KeepProb)
 			}
 			g.noteDetach(c, st)
+			return st
+		case "failstor":
+			c := g.pickTarget(false, true)
+			if c == nil {
+				continue
+			}
+			v := g.genScalar(g.slotLimit(c))
+			st := Step{Op: op, C: c.CID, V: &v, Pos: g.genPos(c.Count()), Sub: []string{"append", "insert", "set"}[r.Intn(3)]}
+			if c.IsMap {
+				var k VSpec
+				if n := len(c.Keys); n > 0 && r.Chance(0.4) {
+					k = specOfKey(c.Keys[r.Intn(n)])
+				} else {
+					k = g.keys[r.Intn(len(g.keys))]
+				}
+				st.K = &k
+			}
 			return st
 		case "m.setfail":
 			c := g.pickTarget(true, false)
